@@ -348,6 +348,8 @@ class SymArray:
                 raise ValueError("setting an array element with a sequence")
             v = v.flat_values()[0]
         k = self.dtype.kind
+        if type(v).__name__ == 'FPV':
+            return v.to32() if (k == 'f' and self.dtype.itemsize == 4) else v
         if k == 'f':
             if isinstance(v, (SI, SB)):
                 return SF.lift(v)
